@@ -917,6 +917,10 @@ func (repo *Repository) consolidate(ctx context.Context) error {
 
 		newBranch, err := branch.Connect(ctx, repo.store, newBranches)
 		if err != nil {
+			if errors.Cause(err) == ErrBranchContained {
+				continue // all of the branch's headers are in the new branches
+			}
+
 			logger.ErrorWithFields(ctx, []logger.Field{
 				logger.String("branch_name", branch.Name()),
 				logger.Stringer("previous_block_hash", branch.PreviousHash()),
